@@ -516,7 +516,7 @@ Definition view (srvname : str) (srvport : Z) (e : entry) : option vitem :=
    TAB CR LF, a gemtext line cannot hold LF and its URL cannot hold blanks, an
    information line must not read as a link line, a local selector is an absolute
    path, an entry is either on this server (no host, no port) or visibly on another
-   one.  Fields are decoded text (what decoding some bytes gives). *)
+   one (an entry with only a host, or only a port, of its own takes the other from this server).  Fields are decoded text (what decoding some bytes gives). *)
 Definition no_tcl (s : str) : bool := negb (mem_N 9 s) && negb (mem_N 10 s) && negb (mem_N 13 s).
 Definition no_ws (s : str) : bool := forallb (fun c => negb (is_ascii_ws c)) s.
 Definition canon (s : str) : bool :=
@@ -536,7 +536,6 @@ Definition reads_as_text (l : str) : bool :=
 Definition remote_ok (srvname : str) (srvport : Z) (c : N) (e : entry) : bool :=
   negb (is_local e) &&
   negb (str_eqb (eff_host srvname e) srvname && Z.eqb (eff_port srvport e) srvport) &&
-  (match e_port e with Some _ => true | None => Z.eqb srvport 70 end) &&
   no_ws (eff_host srvname e) &&
   match encode_se (c :: e_selector e) with Some _ => true | None => false end.
 
